@@ -100,7 +100,7 @@ class Vector(DPMechanism):
         if not isinstance(function_sensitivity, Real) or not isinstance(data_sensitivity, Real):
             raise TypeError("Sensitivities must be numeric")
 
-        if function_sensitivity < 0 or data_sensitivity < 0:
+        if not function_sensitivity >= 0 or not data_sensitivity >= 0:
             raise ValueError("Sensitivities must be non-negative")
 
         return function_sensitivity, data_sensitivity
